@@ -24,6 +24,7 @@ func checkC10(c *Ctx) {
 	c.Rule("C10/R2", "threshold ↔ precision: the boundary literal with d digits before the point is 10^d - 5·10^(d-5), it is stored in the threshold that selects precision 3-d through an inclusive comparison, thresholds are tried from coarse to fine, the sub-prefix ladder is 9.9995e-1..e-8 with base precision 3; the common scale is chosen from the smallest non-zero magnitude (absolute values, zeros skipped)")
 	c.Rule("C10/R3", "binary thresholds: the hexadecimal mantissas are the correctly rounded doubles of 99.995, 9.9995 and .99995")
 	c.Rule("C10/R4", "formatting: Scaler.Format has a single path, strconv.AppendFloat(buf, val/Factor, 'f', Prec, 64) followed by the prefix; the no-op scaler is {-1, 1, \"\"}")
+	c.Rule("C10/R6", "tables ready: every package-level table read on the way from Scale, CommonScale or ClassOf is filled by the package initialiser, or every path to the read passes a call that fills it")
 	c.Rule("C10/R5", "unit class: ClassOf returns Binary exactly when a numerator token equals B, MB or bytes")
 
 	p := mustLoad(c, loadOpts{}, "./benchunit")
@@ -31,6 +32,215 @@ func checkC10(c *Ctx) {
 	c10Select(c, p)
 	c10Format(c, p)
 	c10Class(c, p)
+	c10TablesReady(c, p)
+}
+
+// c10TablesReady (C10/R6): every package-level table read on the way from Scale/CommonScale is either filled by the package
+// initialiser or, when it is filled lazily, every read is dominated by a call that (transitively, through closures handed
+// to it) stores it.
+func c10TablesReady(c *Ctx, p *Prog) {
+	const R = "C10/R6"
+	roots := []*ssa.Function{p.Fn("benchunit", "CommonScale"), p.Fn("benchunit", "Scale"), p.Fn("benchunit", "ClassOf")}
+	for _, r := range roots {
+		if r == nil {
+			c.Undecided(R, "anchor", "", "CommonScale, Scale or ClassOf not found")
+			return
+		}
+	}
+	var all []*ssa.Function
+	for _, fn := range p.Funcs("benchunit") {
+		all = append(all, fn)
+		all = append(all, allAnon(fn)...)
+	}
+	// who stores which global
+	stores := map[*ssa.Global][]*ssa.Function{}
+	for _, fn := range all {
+		eachInstr(fn, func(_ *ssa.BasicBlock, in ssa.Instruction) {
+			if st, ok := in.(*ssa.Store); ok {
+				if g, ok := st.Addr.(*ssa.Global); ok {
+					stores[g] = append(stores[g], fn)
+				}
+			}
+		})
+	}
+	// mayStore(f, g): f, its static callees in the package and the closures it creates or passes on store g
+	var mayStore func(f *ssa.Function, g *ssa.Global, seen map[*ssa.Function]bool) bool
+	mayStore = func(f *ssa.Function, g *ssa.Global, seen map[*ssa.Function]bool) bool {
+		if f == nil || seen[f] || f.Blocks == nil {
+			return false
+		}
+		seen[f] = true
+		found := false
+		eachInstr(f, func(_ *ssa.BasicBlock, in ssa.Instruction) {
+			if found {
+				return
+			}
+			switch x := in.(type) {
+			case *ssa.Store:
+				if x.Addr == g {
+					found = true
+				}
+			case *ssa.MakeClosure:
+				if cf, ok := x.Fn.(*ssa.Function); ok && mayStore(cf, g, seen) {
+					found = true
+				}
+			case ssa.CallInstruction:
+				if sc := x.Common().StaticCallee(); sc != nil && sc.Pkg == f.Pkg && mayStore(sc, g, seen) {
+					found = true
+				}
+				for _, a := range x.Common().Args {
+					if af, ok := a.(*ssa.Function); ok && mayStore(af, g, seen) {
+						found = true
+					}
+				}
+			}
+		})
+		return found
+	}
+	// readyAt(fn, b, idx, g): a call that may store g dominates instruction idx of block b
+	fills := func(in ssa.Instruction, g *ssa.Global) bool {
+		call, isCall := in.(ssa.CallInstruction)
+		if !isCall {
+			return false
+		}
+		if _, isGo := in.(*ssa.Go); isGo {
+			return false
+		}
+		if _, isDefer := in.(*ssa.Defer); isDefer {
+			return false
+		}
+		if sc := call.Common().StaticCallee(); sc != nil && mayStore(sc, g, map[*ssa.Function]bool{}) {
+			return true
+		}
+		for _, a := range call.Common().Args {
+			switch af := a.(type) {
+			case *ssa.Function:
+				if mayStore(af, g, map[*ssa.Function]bool{}) {
+					return true
+				}
+			case *ssa.MakeClosure:
+				if mayStore(af.Fn.(*ssa.Function), g, map[*ssa.Function]bool{}) {
+					return true
+				}
+			}
+		}
+		return false
+	}
+	// readyAt(fn, b, idx, g): no path from the entry of fn reaches instruction idx of block b without passing a call that
+	// may store g
+	readyAt := func(fn *ssa.Function, b *ssa.BasicBlock, idx int, g *ssa.Global) bool {
+		// blocks whose end can be reached from the entry without a filling call
+		passes := func(blk *ssa.BasicBlock, upto int) bool {
+			for i, in := range blk.Instrs {
+				if i >= upto {
+					break
+				}
+				if fills(in, g) {
+					return false
+				}
+			}
+			return true
+		}
+		seen := map[*ssa.BasicBlock]bool{}
+		work := []*ssa.BasicBlock{fn.Blocks[0]}
+		for len(work) > 0 {
+			blk := work[len(work)-1]
+			work = work[:len(work)-1]
+			if seen[blk] {
+				continue
+			}
+			seen[blk] = true
+			if blk == b && passes(blk, idx) {
+				return false
+			}
+			if passes(blk, len(blk.Instrs)) {
+				work = append(work, blk.Succs...)
+			}
+		}
+		return true
+	}
+	reach := staticReach(roots, bunitPkg)
+	n := 0
+	for _, fn := range reach {
+		if fn.Pkg == nil || fn.Pkg.Pkg.Path() != bunitPkg {
+			continue
+		}
+		for _, b := range fn.Blocks {
+			for idx, in := range b.Instrs {
+				ld, ok := in.(*ssa.UnOp)
+				if !ok || ld.Op != token.MUL {
+					continue
+				}
+				g, ok := ld.X.(*ssa.Global)
+				if !ok || g.Pkg != fn.Pkg {
+					continue
+				}
+				lazy := false
+				for _, sf := range stores[g] {
+					if sf.Name() != "init" || sf.Parent() != nil {
+						lazy = true
+					}
+				}
+				n++
+				key := "table-ready:" + g.Name() + "@" + fnName(fn)
+				site := p.pos(ld.Pos())
+				if !lazy {
+					c.OK(R, key, site, "filled by the package initialiser (or never written)")
+					continue
+				}
+				if mayStore(fn, g, map[*ssa.Function]bool{}) && !readyAt(fn, b, idx, g) {
+					// the lazy initialiser itself (check-then-fill)
+					selfInit := false
+					for _, sf := range stores[g] {
+						if sf == fn {
+							selfInit = true
+						}
+					}
+					if selfInit {
+						c.OK(R, key, site, "read inside the function that fills it")
+						continue
+					}
+				}
+				if readyAt(fn, b, idx, g) {
+					c.OK(R, key, site, "every path to the read passes a call that fills it")
+					continue
+				}
+				// one level up: every call of fn in the package is itself preceded by a filling call
+				callersOK, callers := true, 0
+				for _, cf := range all {
+					for _, cb := range cf.Blocks {
+						for ci, cin := range cb.Instrs {
+							if call, isCall := cin.(ssa.CallInstruction); isCall && call.Common().StaticCallee() == fn {
+								callers++
+								if !readyAt(cf, cb, ci, g) {
+									callersOK = false
+								}
+							}
+						}
+					}
+				}
+				if callers > 0 && callersOK && !isExported(fn) {
+					c.OK(R, key, site, "every caller fills it before calling")
+					continue
+				}
+				c.Bad(R, key, site, "the table "+g.Name()+" is filled lazily, and this read can be reached without passing a call that fills it: the first value formatted through this path sees an empty table (no prefix threshold or no sub-prefix precision is found), so it is printed with the wrong number of significant digits")
+			}
+		}
+	}
+	c.Floor(R, "table reads", n, 3)
+}
+
+func isExported(fn *ssa.Function) bool {
+	return fn.Object() != nil && fn.Object().Exported() && fn.Parent() == nil
+}
+
+func allAnon(fn *ssa.Function) []*ssa.Function {
+	var out []*ssa.Function
+	for _, a := range fn.AnonFuncs {
+		out = append(out, a)
+		out = append(out, allAnon(a)...)
+	}
+	return out
 }
 
 // stringListIn: the constant strings stored into array literals of fn, in index order.
@@ -91,7 +301,8 @@ func c10Ladders(c *Ctx, p *Prog) {
 	var builders []*ssa.Function
 	for _, fn := range p.Funcs("benchunit") {
 		if fn.Signature.Params().Len() == 0 && fn.Signature.Results().Len() == 1 {
-			if sl, ok := fn.Signature.Results().At(0).Type().Underlying().(*types.Slice); ok && types.Identical(sl.Elem(), factorT) {
+			if sl, ok := fn.Signature.Results().At(0).Type().Underlying().(*types.Slice); ok && types.Identical(sl.Elem(), factorT) && len(naturalLoops(fn)) > 0 {
+				// (a function without a loop that returns the table is an accessor, not a builder)
 				builders = append(builders, fn)
 			}
 		}
@@ -632,6 +843,7 @@ func c10Class(c *Ctx, p *Prog) {
 	binaryK, _ := p.Obj("benchunit", "Binary").(*types.Const)
 	want := map[string]bool{"B": true, "MB": true, "bytes": true}
 	n := 0
+	seenBin := map[string]bool{}
 	for _, o := range outs {
 		matched := map[string]bool{}
 		var denom *bool
@@ -674,7 +886,15 @@ func c10Class(c *Ctx, p *Prog) {
 		}
 		sort.Strings(ms)
 		key := fmt.Sprintf("ClassOf[token in %v, denominator=%s]", ms, boolPtrStr(denom))
+		if isBin && shouldBin {
+			for k := range matched {
+				seenBin[k] = true
+			}
+		}
 		c.Check(isBin == shouldBin, R, key, site, fmt.Sprintf("binary=%v", isBin), fmt.Sprintf("returns binary=%v; a unit is binary exactly when a byte token appears in the numerator (expected %v)", isBin, shouldBin))
+	}
+	for _, tk := range []string{"B", "MB", "bytes"} {
+		c.Check(seenBin[tk], R, "ClassOf:recognises "+tk, site, "a numerator token "+tk+" makes the unit binary", "no path makes a unit with the numerator token "+strconv.Quote(tk)+" binary: its values are scaled with SI prefixes (1.049M"+tk+" for 2^20) although bytes appear in the numerator")
 	}
 	c.Floor(R, "ClassOf token cases", n, 4)
 }
